@@ -51,6 +51,7 @@ shape!(bye_0, 48, |s, v| shapes::bye::<S, _, 0, 24>(s, v, 12));
 shape!(bye_1, 52, |s, v| shapes::bye::<S, _, 1, 24>(s, v, 12));
 shape!(bye_2, 56, |s, v| shapes::bye::<S, _, 2, 24>(s, v, 12));
 shape!(bye_31, 172, |s, v| shapes::bye::<S, _, 31, 24>(s, v, 12));
+shape!(bye_owned, 44, |s, v| shapes::bye_owned::<S, _, 1, 6>(s, v, 8));
 shape!(bye_utf8, 44, |s, v| shapes::bye_utf8::<S, _, 1, 12>(s, v, 8));
 shape!(bye_long, 160, |s, v| shapes::bye_long::<S, _, 1, 128>(s, v, 12));
 shape!(bye_anypad, 280, |s, v| shapes::bye::<S, _, 1, 8>(s, v, 252));
@@ -220,6 +221,7 @@ common::register! {
     q_bye_1 = bye_1 => 2,
     q_bye_2 = bye_2 => 3,
     q_bye_utf8 = bye_utf8 => 2,
+    q_bye_owned = bye_owned => 2,
     q_bye_255 = bye_255 => 2,
     q_bye_254 = bye_254 => 2,
     q_app = app => 2,
